@@ -179,7 +179,8 @@ ModelRec ==
     IN CASE Op = "write" -> base
          [] Op = "read"  -> [base EXCEPT !.outs = One(rd(file))]
          [] Op = "auto"  -> [base EXCEPT !.outs = One(rd(file)), !.sniffed = ASniff(file, <<>>),
-                                         !.out2 = ARead(AAutoFmt(file, <<>>), file, "none", 0, <<>>)]
+                                         !.out2 = IF AAutoFmt(file, <<>>) \in ReaderNames        \* else: not recognised
+                                                  THEN ARead(AAutoFmt(file, <<>>), file, "none", 0, <<>>) ELSE EmptyTbl]
          [] Op = "rt"    -> LET o1 == rd(wfile)
                                 f2 == ATokens(AWrite(Fmt, One(o1)))
                                 f3 == ATokens(AWrite(Fmt, One(rd(f2))))
